@@ -11,7 +11,7 @@ use std::borrow::Cow;
 use vmodel::par::par_for_chunked;
 use vmodel::{Reporter, Tier};
 
-const NAMES: [&str; 5] = ["en", "fr", "de", "en-US", "pt-BR"];
+const NAMES: [&str; 6] = ["en", "fr", "de", "en-US", "pt-BR", "pt-PT"];
 fn loc(i: usize) -> Locale {
     [Locale::en, Locale::fr, Locale::de][i]
 }
